@@ -535,6 +535,7 @@ def simulate(scn: dict, policy: str = "fifo", max_steps: int = 5000) -> dict:
     loop = TieLoop(policy=policy, seed=scn.get("tie_seed", 0), max_steps_per_instant=max_steps)
     obs.loop = loop
     result: dict[str, Any] = {"outcome": None, "error": None}
+    verdict: tuple[Any, Any] = (None, None)
 
     saved = {n: getattr(queueing, n) for n in ("watching", "asyncio", "aiotasks", "worker", "_wait_for_depletion")}
     log_levels = [(lg, lg.level) for lg in (logging.getLogger("kopf"), logging.getLogger("asyncio"))]
@@ -578,16 +579,20 @@ def simulate(scn: dict, policy: str = "fifo", max_steps: int = 5000) -> dict:
             result["outcome"], result["error"] = "deadlock", str(e)
         if result["outcome"] not in ("stall", "deadlock"):
             obs.label(["end"])
+        verdict = (result["outcome"], result["error"])
     finally:
         for n, v in saved.items():
             setattr(queueing, n, v)
         try:
-            if result["outcome"] not in ("stall",):
+            asyncio.set_event_loop(loop)
+            for _ in range(3):      # also after a stall: a cancelled spinning worker does leave its loop
                 pending = [t for t in asyncio.all_tasks(loop) if not t.done()]
+                if not pending:
+                    break
                 for t in pending:
                     t.cancel()
-                if pending:
-                    loop.run_until_complete(asyncio.gather(*pending, return_exceptions=True))
+                loop._steps_at_instant = 0
+                loop.run_until_complete(asyncio.gather(*pending, return_exceptions=True))
         except BaseException:  # noqa: BLE001
             pass
         try:
@@ -597,6 +602,7 @@ def simulate(scn: dict, policy: str = "fifo", max_steps: int = 5000) -> dict:
         asyncio.set_event_loop(None)
         for lg, lv in log_levels:
             lg.setLevel(lv)
+    result["outcome"], result["error"] = verdict     # the clean-up above must not overwrite the verdict
 
     return {
         "outcome": result["outcome"], "error": result["error"],
